@@ -1,14 +1,24 @@
-#include "modules/sub/oracle.h"
+/* Contracts for src/sp/protocol/pubsub0/sub.c.
+ * The object skeleton (socket, contexts, topics and their real nni_list links)
+ * is BUILT by the harness and named by ghosts (g_s, g_c1, g_t*, g_u*); all other
+ * state is unconstrained except for what the requires clauses say. */
+#ifndef VP_SUB_CONTRACTS_H
+#define VP_SUB_CONTRACTS_H
+/* clang-format off */
 #define RV __CPROVER_return_value
 #define OLD(e) __CPROVER_old(e)
-#define TPU(t) (__CPROVER_is_fresh((t), sizeof(struct sub0_topic)) && (t)->len <= SUB_MAXTOPIC && ((t)->len == 0 || __CPROVER_is_fresh((t)->buf, (t)->len)))
+
+/* ---- C05: matching == "some current subscription is a prefix of the body" ----
+ * for every list of <= 3 topics (empty topic, topics longer than the body,
+ * duplicates, overlapping, arbitrary bytes) and every body. */
 static bool sub0_matches(sub0_ctx *ctx, uint8_t *body, size_t len)
-__CPROVER_requires(__CPROVER_is_fresh(ctx, sizeof(struct sub0_ctx)) && TPU(g_t0) && TPU(g_t1) && TPU(g_t2) && g_nt <= 3 && ctx->topics.ll_offset == 0 && VP_LIST3_LINKS(&ctx->topics.ll_head, g_nt, &g_t0->node, &g_t1->node, &g_t2->node))
+__CPROVER_requires(ctx == &g_s->master && SUB_TOPICS_ARE(ctx, g_nt, g_t0, g_t1, g_t2))
 __CPROVER_requires(len == 0 || __CPROVER_is_fresh(body, len))
-__CPROVER_requires(g_qa_addr == &ctx->recv_queue && g_qb_addr == NULL)
 __CPROVER_assigns()
-#ifndef NOORACLE
-__CPROVER_ensures(RV==vp_sub_oracle(g_nt,g_t0,g_t1,g_t2,body,len))
-#endif
+__CPROVER_ensures(RV == vp_sub_oracle(g_nt, g_t0, g_t1, g_t2, body, len))
+/* spelled out: no subscription matches nothing, the empty subscription matches everything */
 __CPROVER_ensures(g_nt == 0 ==> !RV)
+__CPROVER_ensures(((g_nt > 0 && g_t0->len == 0) || (g_nt > 1 && g_t1->len == 0) || (g_nt > 2 && g_t2->len == 0)) ==> RV)
 ;
+/* clang-format on */
+#endif
